@@ -25,8 +25,7 @@ The model mirrors what the code *does*:
   * `datetime_between` returns the start itself when both bounds are the same instant
     (repaired by e0d1353, D37); otherwise Faker truncates both bounds to whole seconds and, when
     they are at most one second apart, returns `start + random()`; the result is clamped from
-    below to the start (repaired by 919a3ea, D38).  Not clamped from above: when both bounds lie
-    in the same whole second the value can still pass the end (D50).
+    below to the start (919a3ea, D38) and from above to the end (a6412d5, D50).
 -/
 namespace SnowModel.Bounded
 
@@ -288,13 +287,18 @@ def clampLow (S : Int) : DTOut → DTOut
   | .value v => .value (max v S)
   | o => o
 
+/-- `min(…, latest)`: … nor after the end (a6412d5). -/
+def clampHigh (E : Int) : DTOut → DTOut
+  | .value v => .value (min v E)
+  | o => o
+
 /-- `datetime_between(start_date, end_date)` with the given normalisation call. -/
 def datetimeBetweenWith (call : TzCall) (c : Clock) (s e : DTSpec) (d : Nat) : DTOut :=
   let S := normalise call c s
   let E := normalise call c e
   if E < S then .orderError
   else if E = S then .value S          -- equal bounds: that instant itself (e0d1353)
-  else clampLow S (fakerBetween S E d)
+  else clampHigh E (clampLow S (fakerBetween S E d))
 
 /-- `datetime_between` as the code has it. -/
 def datetimeBetween (c : Clock) (s e : DTSpec) (d : Nat) : DTOut :=
